@@ -4,6 +4,7 @@
 #include <nano/core/overloaded.h>
 #include <nano/core/strutil.h>
 #include <nano/scalar.h>
+#include <limits>
 #include <variant>
 
 namespace nano
@@ -178,6 +179,14 @@ public:
     {
         if constexpr (std::is_integral_v<tscalar>)
         {
+            if constexpr (std::is_unsigned_v<tscalar> && sizeof(tscalar) >= sizeof(int64_t))
+            {
+                // NB: too large unsigned values cannot be represented as signed integers!
+                if (value > static_cast<tscalar>(std::numeric_limits<int64_t>::max()))
+                {
+                    return setd(static_cast<scalar_t>(value));
+                }
+            }
             seti(static_cast<int64_t>(value));
         }
         else
